@@ -119,6 +119,26 @@ def run(ctx):
             c["sched"] = x["sched"]
             cases.append(c)
             meta.append((sc, x))
+    if ctx.replay:
+        # --replay <file>: impose only the recorded schedule(s); predictions are looked up among the generated ones
+        wanted = [json.loads(l) for l in open(ctx.replay) if l.strip()]
+        keys = {json.dumps(w.get("sched")) for w in wanted if "sched" in w}
+        keep = [i for i in range(len(cases)) if json.dumps(cases[i]["sched"]) in keys]
+        if not keep:
+            # the sampled set may not contain it: regenerate the scenario completely
+            cases, meta = [], []
+            for w in wanted:
+                if "sched" not in w:
+                    continue
+                sc = w.get("scenario", "DropDrop")
+                g = ctx.tlc("mc/MC_SharedHandles.tla", "mc/SharedHandles_%s_gen_FALSE.cfg" % sc, workers=2, timeout=2400)
+                for x in b_json(g):
+                    if json.dumps(x["sched"]) == json.dumps(w["sched"]):
+                        c = dict(SCENARIOS[sc]); c["sched"] = x["sched"]; cases.append(c); meta.append((sc, x))
+            if not cases:
+                raise Broken("the schedule(s) in %s are not schedules of the model" % ctx.replay)
+        else:
+            cases = [cases[i] for i in keep]; meta = [meta[i] for i in keep]
     exe, lib = ctx.build_harness("shared_sched", ["shared_sched.cpp"], variant="tsan")
     env = ctx.occa_env(lib)
     env["TSAN_OPTIONS"] = "report_bugs=0:exitcode=66"     # schedules are imposed: the registry is the observer here
